@@ -249,5 +249,6 @@ template <class T, class N> inline void one_case (const N* mn, const N* mx, cons
 template <class T> bool run_lattice (bool thorough); // c14_lat.hpp
 template <class T> bool run_extreme (bool thorough); // c14_ext.hpp
 template <class T> bool run_rounding (bool thorough); // c14_lat.hpp
+template <class T> bool run_elongated (bool thorough); // c14_lat.hpp
 
 } // namespace c14
